@@ -1,6 +1,335 @@
-//! placeholder: filled in by the check that owns this sub-command
+//! `vh print <sub> ...` — text forms (spec/Print.tla).
+//!   C15  types <dir> <reps> <filter_texts_per_type>   replay of MC_Print's universe
+//!        gentypes <n> <max_depth> <out.ndjson>        seeded random types, printed; for Trace validation
+//!   C20  vals <dir>                                   replay of MC_PrintVal's values
+//!        lits <dir>                                   replay of MC_PrintVal's integer literal forms
+//!        genvals <n> <max_depth> <out.ndjson>         seeded random values, printed; for Trace validation
+//! The specification is the oracle for structure (token sequences, which type / value a text
+//! denotes, which literal overflows).  The harness only tokenises, renders tokens with a fixed
+//! spacing policy, builds implementation objects from the wire and compares.
+use crate::util::{catch, read_ndjson, Mismatches, Rng};
+use crate::wire::*;
 use serde_json::{Value, json};
+use simplesl::{
+    Code, Error, Interpreter,
+    variable::{Array, Type, Typed, Variable},
+};
+use std::{
+    collections::{HashMap, HashSet},
+    io::Write,
+    str::FromStr,
+    sync::Arc,
+};
 
-pub fn run(_args: &[String]) -> Value {
+pub fn run(args: &[String]) -> Value {
+    let arg = |i: usize| args.get(i).cloned().unwrap_or_default();
+    let num = |i: usize, d: usize| args.get(i).and_then(|s| s.parse().ok()).unwrap_or(d);
+    match arg(0).as_str() {
+        "types" => types(&arg(1), num(2, 4), num(3, 2)),
+        "gentypes" => gen_types(num(1, 500), num(2, 5), &arg(3)),
+        "vals" => vals(&arg(1)),
+        "lits" => lits(&arg(1)),
+        "genvals" => gen_vals(num(1, 500), num(2, 5), &arg(3)),
+        other => json!({"error": format!("unknown print sub-command {other:?}")}),
+    }
+}
+
+// =====================================================================================
+// C15: types
+// =====================================================================================
+
+/// Tokens of a type text: words, `->`, single punctuation characters. Anything else becomes a
+/// token of its own prefixed with `?` (so that it can never equal a token of the specification).
+pub fn tokenize_type(text: &str) -> Vec<String> {
+    let cs: Vec<char> = text.chars().collect();
+    let mut out = vec![];
+    let mut i = 0;
+    while i < cs.len() {
+        let c = cs[i];
+        if c.is_whitespace() {
+            i += 1;
+        } else if c == '-' && cs.get(i + 1) == Some(&'>') {
+            out.push("->".to_string());
+            i += 2;
+        } else if "()[]{},|:!".contains(c) {
+            out.push(c.to_string());
+            i += 1;
+        } else if c.is_ascii_alphabetic() || c == '_' {
+            let mut j = i;
+            while j < cs.len() && (cs[j].is_ascii_alphanumeric() || cs[j] == '_') {
+                j += 1;
+            }
+            out.push(cs[i..j].iter().collect());
+            i = j;
+        } else {
+            out.push(format!("?{c}"));
+            i += 1;
+        }
+    }
+    out
+}
+
+/// The spacing policy used to turn the specification's token sequences into text: a blank after
+/// `,`, `:` and `mut`, nothing else (`(` `)` of the empty tuple type stay adjacent: `void = "()"`).
+pub fn render_type(tokens: &[String]) -> String {
+    let mut s = String::new();
+    for t in tokens {
+        s.push_str(t);
+        if t == "," || t == ":" || t == "mut" {
+            s.push(' ');
+        }
+    }
+    s
+}
+
+fn split_tokens(joined: &str) -> Vec<String> {
+    joined.split(' ').filter(|t| !t.is_empty()).map(str::to_string).collect()
+}
+
+fn strict_type_eq(a: &Type, b: &Type) -> bool {
+    a == b && b == a && type_to_wire(a) == type_to_wire(b)
+}
+
+fn types(dir: &str, reps: usize, filter_texts: usize) -> Value {
+    let rows = read_ndjson(&format!("{dir}/print_types.ndjson"));
+    let pool_rows = read_ndjson(&format!("{dir}/print_pool.ndjson"));
+    let mut cells = HashMap::new();
+    let pool: Vec<Variable> = pool_rows.iter().map(|r| value_from_wire(&r["v"], &mut cells)).collect();
+    let mut interp = Interpreter::with_stdlib();
+    interp.insert(
+        "pool".into(),
+        Variable::from(Array::new_with_type(Type::Any, pool.iter().cloned().collect::<Arc<[Variable]>>())),
+    );
+    let mut mm = Mismatches::new(300);
+    let (mut n_parse, mut n_print, mut n_filter, mut n_filter_skipped) = (0u64, 0u64, 0u64, 0u64);
+    let mut n_texts = 0u64;
+    let mut orders_seen = 0u64; // number of distinct texts the implementation produced
+    let mut multi_order_types = 0u64; // types with more than one text
+    let mut multi_order_covered = 0u64; // ... for which the implementation showed more than one
+    let mut samples = vec![];
+    for (ri, row) in rows.iter().enumerate() {
+        let w = &row["t"];
+        let canon = canon_type(w);
+        let name = type_text(w, 0);
+        let texts: Vec<Vec<String>> =
+            row["texts"].as_array().unwrap().iter().map(|t| split_tokens(t.as_str().unwrap())).collect();
+        let text_set: HashSet<&Vec<String>> = texts.iter().collect();
+        n_texts += texts.len() as u64;
+        // --- instances built with the constructors, in `reps` different insertion orders
+        let mut instances: Vec<(String, Type)> = vec![];
+        for r in 0..reps {
+            match catch(|| type_from_wire_rot(w, r)) {
+                Ok(t) => {
+                    if type_to_wire(&t) != canon {
+                        mm.push("construct", json!({"type": name, "rot": r, "expected": canon, "got": type_to_wire(&t)}));
+                    }
+                    instances.push((format!("constructors rot {r}"), t));
+                }
+                Err(p) => mm.push("construct", json!({"type": name, "rot": r, "panic": p})),
+            }
+        }
+        // --- spec -> impl: EVERY text of PrintSet(T) parses to T
+        for toks in &texts {
+            let text = render_type(toks);
+            n_parse += 1;
+            match catch(|| Type::from_str(&text)) {
+                Ok(Ok(t)) => {
+                    let same_wire = type_to_wire(&t) == canon;
+                    let same_eq = instances.first().is_none_or(|(_, c)| strict_type_eq(&t, c));
+                    if !same_wire || !same_eq {
+                        mm.push("parse", json!({"type": name, "text": text, "expected": canon,
+                            "got": type_to_wire(&t), "equal_by_eq": same_eq}));
+                    }
+                    instances.push((format!("from_str {text:?}"), t));
+                }
+                Ok(Err(_)) => mm.push("parse", json!({"type": name, "text": text, "expected": canon, "got": "ParseTypeError"})),
+                Err(p) => mm.push("parse", json!({"type": name, "text": text, "panic": p})),
+            }
+        }
+        // --- impl -> spec: what each instance prints is one of the texts, and parses back to T
+        let mut seen: HashSet<Vec<String>> = HashSet::new();
+        for (how, inst) in &instances {
+            n_print += 1;
+            let printed = match catch(|| inst.to_string()) {
+                Ok(s) => s,
+                Err(p) => {
+                    mm.push("print", json!({"type": name, "instance": how, "panic": p}));
+                    continue;
+                }
+            };
+            let toks = tokenize_type(&printed);
+            if !text_set.contains(&toks) {
+                mm.push("print", json!({"type": name, "instance": how, "printed": printed,
+                    "what": "the printed text is not in the specification's PrintSet(T)",
+                    "print_set": texts.iter().take(6).map(|t| render_type(t)).collect::<Vec<_>>()}));
+            }
+            match catch(|| Type::from_str(&printed)) {
+                Ok(Ok(back)) => {
+                    if !strict_type_eq(&back, inst) || type_to_wire(&back) != canon {
+                        mm.push("roundtrip", json!({"type": name, "instance": how, "printed": printed,
+                            "expected": canon, "got": type_to_wire(&back)}));
+                    }
+                }
+                Ok(Err(_)) => mm.push("roundtrip", json!({"type": name, "instance": how, "printed": printed,
+                    "expected": canon, "got": "ParseTypeError"})),
+                Err(p) => mm.push("roundtrip", json!({"type": name, "instance": how, "printed": printed, "panic": p})),
+            }
+            seen.insert(toks);
+        }
+        orders_seen += seen.len() as u64;
+        if texts.len() > 1 {
+            multi_order_types += 1;
+            if seen.len() > 1 {
+                multi_order_covered += 1;
+            }
+        }
+        // --- the internal re-parse: `pool~ ? T $]` selects exactly the members (by run-time tag)
+        if row["filt"].as_i64() == Some(1) {
+            let sel: Vec<usize> = row["sel"].as_array().unwrap().iter().enumerate()
+                .filter(|(_, b)| b.as_i64() == Some(1)).map(|(j, _)| j).collect();
+            for q in 0..filter_texts.min(texts.len()) {
+                // rotate through the texts so that successive types use different orderings
+                let text = render_type(&texts[(ri + q * 7) % texts.len()]);
+                let program = format!("pool~ ? {text} $]");
+                n_filter += 1;
+                let res = catch(|| Code::parse(&interp, &program).map(|c| c.exec()));
+                match res {
+                    Ok(Ok(Ok(Variable::Array(a)))) => {
+                        let ok = a.len() == sel.len()
+                            && a.iter().zip(&sel).all(|(got, j)| *got == pool[*j] && got.as_type() == pool[*j].as_type());
+                        if !ok {
+                            let got_idx: Vec<Value> = a.iter().map(|g| {
+                                pool.iter().position(|p| p == g && p.as_type() == g.as_type()).map_or(json!("?"), |j| json!(j))
+                            }).collect();
+                            mm.push("filter", json!({"type": name, "program": program, "expected_indices": sel,
+                                "got_indices": got_idx, "got": format!("{:?}", Variable::Array(a.clone()))}));
+                        }
+                    }
+                    Ok(Ok(Ok(v))) => mm.push("filter", json!({"type": name, "program": program, "got": format!("{v:?}")})),
+                    Ok(Ok(Err(e))) => mm.push("filter", json!({"type": name, "program": program, "exec_error": e.to_string()})),
+                    Ok(Err(e)) => mm.push("filter", json!({"type": name, "program": program, "parse_error": e.to_string()})),
+                    Err(p) => mm.push("filter", json!({"type": name, "program": program, "panic": p})),
+                }
+            }
+        } else {
+            n_filter_skipped += 1;
+        }
+        if samples.len() < 4 && texts.len() >= 4 && ri % 97 == 0 {
+            samples.push(json!({"type": canon, "print_set": texts.iter().map(|t| render_type(t)).collect::<Vec<_>>(),
+                "implementation_printed": seen.iter().map(|t| render_type(t)).collect::<Vec<_>>()}));
+        }
+    }
+    json!({
+        "universe": rows.len(), "texts": n_texts, "parsed_texts": n_parse, "printed_instances": n_print,
+        "filter_programs": n_filter, "filter_skipped_no_default": n_filter_skipped, "pool": pool.len(),
+        "distinct_texts_printed_by_impl": orders_seen,
+        "types_with_several_texts": multi_order_types, "of_which_impl_showed_several": multi_order_covered,
+        "evaluations": n_parse + 2 * n_print + n_filter,
+        "mismatch_counts": mm.counts(), "mismatches": mm.items(), "samples": samples,
+    })
+}
+
+// ---- impl -> spec: seeded random types beyond the enumerated bound -----------------------
+
+fn gen_wire(rng: &mut Rng, depth: usize, allow_multi: bool) -> Value {
+    let leaf = |rng: &mut Rng| {
+        json!({"k": *rng.pick(&["bool", "int", "float", "string", "void", "any", "never"])})
+    };
+    if depth == 0 {
+        return leaf(rng);
+    }
+    let choice = rng.below(if allow_multi { 10 } else { 8 });
+    match choice {
+        0 | 1 => leaf(rng),
+        2 => json!({"k": "array", "e": gen_wire(rng, depth - 1, true)}),
+        3 => json!({"k": "mut", "e": gen_wire(rng, depth - 1, true)}),
+        4 => {
+            let n = 2 + rng.below(2);
+            json!({"k": "tuple", "es": (0..n).map(|_| gen_wire(rng, depth - 1, true)).collect::<Vec<_>>()})
+        }
+        5 | 6 => {
+            let n = rng.below(3);
+            json!({"k": "fn", "ps": (0..n).map(|_| gen_wire(rng, depth - 1, true)).collect::<Vec<_>>(),
+                   "r": gen_wire(rng, depth - 1, true)})
+        }
+        7 => {
+            let names = ["a", "b", "c"];
+            let n = rng.below(4);
+            json!({"k": "struct", "fs": (0..n).map(|i| json!([names[i], gen_wire(rng, depth - 1, true)])).collect::<Vec<_>>()})
+        }
+        _ => {
+            // a union: 2..4 distinct members that are neither unions nor any / never
+            let n = 2 + rng.below(3);
+            let mut ms: Vec<Value> = vec![];
+            let mut guard = 0;
+            while ms.len() < n && guard < 40 {
+                guard += 1;
+                let m = canon_type(&gen_wire(rng, depth - 1, false));
+                if k(&m) == "any" || k(&m) == "never" || ms.contains(&m) {
+                    continue;
+                }
+                ms.push(m);
+            }
+            if ms.len() < 2 { leaf(rng) } else { json!({"k": "multi", "ms": ms}) }
+        }
+    }
+}
+
+fn gen_types(n: usize, max_depth: usize, out: &str) -> Value {
+    let mut rng = Rng::from_env(0xC15);
+    let mut f = std::io::BufWriter::new(std::fs::File::create(out).expect("cannot create output"));
+    let mut mm = Mismatches::new(100);
+    let mut distinct: HashSet<String> = HashSet::new();
+    let mut records = 0u64;
+    let mut deepest = 0usize;
+    for i in 0..n {
+        let depth = 2 + i % (max_depth - 1).max(1);
+        let w = canon_type(&gen_wire(&mut rng, depth, true));
+        let name = type_text(&w, 0);
+        deepest = deepest.max(name.matches(['(', '[', '{']).count());
+        if !distinct.insert(w.to_string()) {
+            continue;
+        }
+        for r in 0..3 {
+            let t = type_from_wire_rot(&w, rng.below(7) + r);
+            let printed = match catch(|| t.to_string()) {
+                Ok(s) => s,
+                Err(p) => {
+                    mm.push("print", json!({"type": name, "panic": p}));
+                    continue;
+                }
+            };
+            // the round trip itself needs no oracle: equality of implementation types
+            match catch(|| Type::from_str(&printed)) {
+                Ok(Ok(back)) if strict_type_eq(&back, &t) && type_to_wire(&back) == w => {}
+                Ok(Ok(back)) => mm.push("roundtrip", json!({"type": name, "printed": printed, "expected": w, "got": type_to_wire(&back)})),
+                Ok(Err(_)) => mm.push("roundtrip", json!({"type": name, "printed": printed, "expected": w, "got": "ParseTypeError"})),
+                Err(p) => mm.push("roundtrip", json!({"type": name, "printed": printed, "panic": p})),
+            }
+            writeln!(f, "{}", json!({"t": w, "toks": tokenize_type(&printed), "printed": printed})).unwrap();
+            records += 1;
+        }
+    }
+    f.flush().unwrap();
+    json!({"generated": n, "distinct_types": distinct.len(), "records": records, "max_nesting": deepest,
+           "mismatch_counts": mm.counts(), "mismatches": mm.items()})
+}
+
+// =====================================================================================
+// C20: values
+// =====================================================================================
+
+fn vals(_dir: &str) -> Value {
     json!({"error": "not implemented"})
 }
+
+fn lits(_dir: &str) -> Value {
+    json!({"error": "not implemented"})
+}
+
+fn gen_vals(_n: usize, _max_depth: usize, _out: &str) -> Value {
+    json!({"error": "not implemented"})
+}
+
+#[allow(unused)]
+fn _unused(_: &Error) {}
